@@ -39,9 +39,11 @@ THEOREMS = [
     "Canopen.C20.phys_half_step",
     "Canopen.C20.views_over_any_store",
     "Canopen.C20.store_instances",
-    "Canopen.C20.bits_through_store_partial",
-    "Canopen.C20.signbit_write_rejected",
-    "Canopen.C20.signbit_write_accepted_iff",
+    "Canopen.C20.stored_pattern",
+    "Canopen.C20.bits_through_store",
+    "Canopen.C20.bits_through_store_bytes",
+    "Canopen.C20.signbit_write_sets_sign",
+    "Canopen.C20.bits_beyond_width_rejected",
     "Canopen.C20.desc_through_store",
     "Canopen.C20.phys_through_store",
     "Canopen.C20.integer_types_table",
@@ -490,12 +492,15 @@ def oracle(op, out):
         mask = ((1 << n) - 1) << lo
         newp = (P & ~mask) | (v << lo)
         if hi > w:
-            if signed:
-                return None
-            # the field reaches beyond the value: refusing is fine, silently dropping bits is not
+            # the field reaches beyond the value (signed or unsigned: the bits of the raw value are
+            # those of its pattern in the type's width): refusing is fine, silently dropping bits is not
             acceptable = {f"err {hx(whole)}"}
             if newp < (1 << w):
                 acceptable.add(f"ok {hx(put(newp.to_bytes(w // 8, 'little')))} {v}")
+            if signed and out.startswith("ok "):
+                # what is stored must be exact; reading back bits above the width of a negative
+                # value (sign extension of the Python int) is outside the property
+                out = " ".join(o[:2] + [str(v)])
             if out not in acceptable:
                 return f"field [{lo},{hi}) reaching beyond the {w}-bit value: got {out}, acceptable {sorted(acceptable)}"
             return None
@@ -510,7 +515,7 @@ def oracle(op, out):
         for s in a[4].split("|"):
             k = s[:-1] if s.endswith("?") else s.split("=")[0]
             rg = key_range(k, defs)
-            if rg is None or rg[1] > (w - 1 if signed else w):
+            if rg is None or rg[1] > w:
                 return None
             lo, hi = rg
             n = hi - lo
@@ -604,8 +609,8 @@ def signature(op, what):
         sp = a[4].split(":")[0]
         t = int(a[2])
         if a[5] == "set" and t in SPEC and SPEC[t][1] and " gave err " in what:
-            # finding F13 and nothing else: signed type, field reaching up to the sign bit, the
-            # assignment would *change* the sign bit, and the code raised
+            # the defect repaired by "fix: bit fields of signed variables": signed type, field
+            # reaching up to the sign bit, the assignment would change the sign bit, the code raised
             w = SPEC[t][0]
             rg = key_range(a[4], parse_defs(a[3]))
             cur = window(a[1], t)[0]
@@ -779,11 +784,40 @@ def gen_bits(tier, rng):
                     fv = field_values(rng, hi - lo)
                     for v in rng.sample(fv, min(len(fv), 2 if quick else 4)):
                         yield f"bits {st} {t} {defs} {key} set {v}"
+    # (3b) fields containing the sign bit of every signed type, over every store (SDO and PDO
+    #      variables in particular): sign set, cleared, kept; raw at 0, -1, min, max, random
+    for t in [x for x in INT_TYPES if SPEC[x][1]]:
+        w, _ = SPEC[t]
+        los = sorted({w - 1, w - 2, w - 4, w - 8, w // 2, 1, 0})
+        for lo in los:
+            n = w - lo
+            vals = sorted({0, 1, (1 << n) - 1, 1 << (n - 1), (1 << (n - 1)) - 1, (1 << (n - 1)) | 1,
+                           rng.getrandbits(n), rng.getrandbits(n) | (1 << (n - 1)),
+                           rng.getrandbits(n) & ~(1 << (n - 1))})
+            vals = [v for v in vals if 0 <= v < (1 << n)]
+            for kind in "spdl":
+                if quick and kind in "dl" and lo not in (w - 1, w - 4, 0):
+                    continue
+                for style, val in enumerate([bytes(w // 8), b"\xff" * (w // 8), (1 << (w - 1)).to_bytes(w // 8, "little"),
+                                             ((1 << (w - 1)) - 1).to_bytes(w // 8, "little"),
+                                             rand_raw_bytes(rng, w, 4)]):
+                    sps = spellings(rng, lo, w, extra_defs=False)
+                    for key, defs in (sps if not quick else [sps[(style + lo) % len(sps)]]):
+                        st = mk_store(rng, t, val, kind)
+                        yield f"bits {st} {t} {defs} {key} get"
+                        for v in (vals if not quick or kind in "sp" else rng.sample(vals, min(3, len(vals)))):
+                            yield f"bits {st} {t} {defs} {key} set {v}"
+        # the field ending just beyond the sign bit, and single bits above it (must not be dropped silently)
+        for lo, hi in ((w - 1, w + 1), (w, w + 1), (0, w + 1), (w - 3, w + 2)):
+            for val in (bytes(w // 8), b"\xff" * (w // 8), rand_raw_bytes(rng, w, 4)):
+                for v in sorted({0, 1, (1 << (hi - lo)) - 1, 1 << (hi - lo - 1), rng.getrandbits(hi - lo)}):
+                    st = mk_store(rng, t, val, rng.choice("sp"))
+                    yield f"bits {st} {t} - {key_s('s', lo, hi, None)} set {v}"
     # (4) sequences on one Bits object
     for _ in range(60 if quick else 1500):
         t = rng.choice(INT_TYPES)
         w, signed = SPEC[t]
-        top = w - 1 if signed else w
+        top = w
         ops = []
         for _ in range(rng.randint(2, 6)):
             lo = rng.randrange(top)
@@ -944,8 +978,12 @@ CORPUS = [
     "bits d:0f 5 - s:4:8:_ set 10",
     "bits s:34120000 7 - s:_:4:_ get",
     "bits p:2:aabb3412ccdd 6 - s:8:12:_ set 15",
-    "bits d:00 2 - n:7 set 1",            # F13: sign bit of a signed type through bits
+    "bits d:00 2 - n:7 set 1",            # sign bit of a signed type: raised ValueError before the fix
     "bits d:ff 2 - s:4:8:_ set 7",
+    "bits s:ffffff 16 - n:23 set 0",      # INTEGER24 -1 -> 0x7fffff over SDO
+    "bits p:1:aa0080bb 3 - n:15 set 0",   # INTEGER16 min -> 0 in a PDO frame
+    "bits d:00 2 - n:8 set 1",            # a bit beyond the width is refused, not dropped (as for UNSIGNED8)
+    "bits d:ff 2 - n:8 set 1",
     "bits l:0000 3 82,68,89=15 d:82,68,89 set 1",
     "phys d:0000 3 1/4 set 5/8",          # tie: 2.5 -> 2
     "phys d:0000 3 1/4 set 7/8",          # tie: 3.5 -> 4
@@ -956,10 +994,11 @@ LEVEL_TEXT = ("Lean 4 theorems over all Python-int raw values, all contiguous bi
               "bit lists), all field values that fit, all key spellings, all description tables, all rational factors "
               "and values (round-half-even), and all lawful stores (any two lawful stores are indistinguishable "
               "through the views; dict cell and byte-aligned PDO window proved lawful), composed with the C04 codec "
-              "for the 16 integer types; model tied to the code by a differential run over four real stores "
+              "for the 16 integer types, signed ones included (bits = two's complement pattern in the type's width, "
+              "fields containing the sign bit included); model tied to the code by a differential run over four real stores "
               "(dict, LocalNode, SDO over a fake bus, PDO)")
 LEVEL_NOTE = ("scaling is proved over the rationals: IEEE rounding of '/' and '*' is differential-only (exact dyadic "
               "stream compared with the model, decimal factors bounded by the oracle); the SDO store law is a "
-              "hypothesis here (C01-C03); bits_through_store is _partial: a field containing the sign bit of a "
-              "signed type cannot be changed through var.bits (open finding, signbit_write_rejected)")
+              "hypothesis here (C01-C03); reading a field that reaches beyond the width of a signed variable (sign "
+              "extension of the Python int) is outside the property and compared with the model only")
 TECHNIQUE = "Lean 4 proof (bit-level extensionality on unbounded ints, rationals) + differential correspondence"
